@@ -1,0 +1,108 @@
+// Copyright IBM Corp. 2013, 2026
+// SPDX-License-Identifier: MPL-2.0
+
+//go:build verif
+
+package raft
+
+import (
+	"io"
+
+	"github.com/hashicorp/go-hclog"
+)
+
+// This file is only compiled with the "verif" build tag. It exposes
+// observation points and thin wrappers around unexported pure code so that an
+// external runtime-verification harness can watch the real implementation.
+// Hooks only report; they never change behaviour.
+
+// VerifHook, when set, is called synchronously at named points with the
+// values the code is about to act on. It must be set before any Raft instance
+// is created and not changed afterwards.
+var VerifHook func(point string, r *Raft, a, b, c, d uint64)
+
+// VerifFSHook, when set, is called between the file-system steps of
+// FileSnapshotStore / FileSnapshotSink with the snapshot directory involved.
+var VerifFSHook func(point string, path string)
+
+func verifHook(point string, r *Raft, a, b, c, d uint64) {
+	if h := VerifHook; h != nil {
+		h(point, r, a, b, c, d)
+	}
+}
+
+func verifFSHook(point string, path string) {
+	if h := VerifFSHook; h != nil {
+		h(point, path)
+	}
+}
+
+// VerifLocalID returns the server ID the instance was created with.
+func VerifLocalID(r *Raft) ServerID { return r.localID }
+
+// VerifCommitment wraps the unexported commitment tracker.
+type VerifCommitment struct {
+	c  *commitment
+	ch chan struct{}
+}
+
+// NewVerifCommitment builds a commitment tracker exactly as setupLeaderState does.
+func NewVerifCommitment(configuration Configuration, startIndex uint64) *VerifCommitment {
+	ch := make(chan struct{}, 1)
+	return &VerifCommitment{c: newCommitment(ch, configuration, startIndex), ch: ch}
+}
+
+// Match forwards to commitment.match.
+func (v *VerifCommitment) Match(server ServerID, matchIndex uint64) { v.c.match(server, matchIndex) }
+
+// SetConfiguration forwards to commitment.setConfiguration.
+func (v *VerifCommitment) SetConfiguration(configuration Configuration) {
+	v.c.setConfiguration(configuration)
+}
+
+// GetCommitIndex forwards to commitment.getCommitIndex.
+func (v *VerifCommitment) GetCommitIndex() uint64 { return v.c.getCommitIndex() }
+
+// Notified reports (and clears) whether a commit notification is pending.
+func (v *VerifCommitment) Notified() bool {
+	select {
+	case <-v.ch:
+		return true
+	default:
+		return false
+	}
+}
+
+// VerifChange describes a membership change request for VerifNextConfiguration.
+type VerifChange struct {
+	Command       ConfigurationChangeCommand
+	ServerID      ServerID
+	ServerAddress ServerAddress
+	PrevIndex     uint64
+}
+
+// VerifNextConfiguration forwards to nextConfiguration.
+func VerifNextConfiguration(current Configuration, currentIndex uint64, ch VerifChange) (Configuration, error) {
+	return nextConfiguration(current, currentIndex, configurationChangeRequest{
+		command:       ch.Command,
+		serverID:      ch.ServerID,
+		serverAddress: ch.ServerAddress,
+		prevIndex:     ch.PrevIndex,
+	})
+}
+
+// VerifCheckConfiguration forwards to checkConfiguration.
+func VerifCheckConfiguration(c Configuration) error { return checkConfiguration(c) }
+
+// VerifCompactLogsWithTrailing runs compactLogsWithTrailing on a bare Raft
+// value that only has a log store and a logger.
+func VerifCompactLogsWithTrailing(logs LogStore, snapIdx, lastLogIdx, trailingLogs uint64) error {
+	r := &Raft{logs: logs, logger: hclog.New(&hclog.LoggerOptions{Output: io.Discard, Level: hclog.Off})}
+	return r.compactLogsWithTrailing(snapIdx, lastLogIdx, trailingLogs)
+}
+
+// VerifRemoveOldLogs runs removeOldLogs on a bare Raft value.
+func VerifRemoveOldLogs(logs LogStore) error {
+	r := &Raft{logs: logs, logger: hclog.New(&hclog.LoggerOptions{Output: io.Discard, Level: hclog.Off})}
+	return r.removeOldLogs()
+}
